@@ -150,18 +150,35 @@ def run_world(facts, rep, w, floors):
                    "; ".join(offenders[:5]) if offenders else "pure", b.span)
     rep.floor("path-level observers (%s)" % tag, n_obs, floors["observers"])
 
-    # note: backends whose own observers mutate (assumption check)
+    # R08.6 the observing methods of the in-crate backends the overlay can be stacked on issue no mutating call on
+    # themselves (the overlay hands observations to whichever layer serves the entry, lower layers included)
+    n6 = 0
     for ty in (w.memory, w.physical, w.altroot):
         ms = facts.impl_methods(w.trait.rsplit("::", 1)[1], ty)
         for name in OVERLAY_OBSERVERS:
             b = ms.get(name)
             if b is None:
                 continue
+            offenders = []
             for cb in inter.code_bodies(b):
                 for s in inter.sites(cb):
-                    if s.name in MUTATING and (s.trait == w.trait):
-                        rep.note("assumption note: %s calls mutating %s on itself (%s) — access-time semantics, "
-                                 "not a tree mutation" % (b.id, s.name, s.line))
+                    if s.name in MUTATING and (s.trait == w.trait or (s.self_ty or "") == ty):
+                        offenders.append((s.name, s.line))
+            if ty == w.memory:
+                # direct writes to the map behind the lock count as well (an inlined access-time bump)
+                from ..memrules import MemoryModel
+                mm6 = MemoryModel(facts, ty, w.trait.rsplit("::", 1)[1])
+                for cb6, bb6, sh6, key6, line6 in mm6.mutation_sites(b):
+                    offenders.append((sh6, line6))
+                for cb6, bb6, fld6, line6, base6 in mm6.field_writes(b):
+                    offenders.append(("write of .%s" % fld6, line6))
+            n6 += 1
+            rep.ob("R08.6", b.id, "backend observer %s issues no mutating call" % name, not offenders,
+                   "pure" if not offenders else
+                   "%s calls the mutating %s on its own filesystem (%s): observing an entry that the overlay serves from a "
+                   "lower layer of this backend re-times that lower layer's entry" % (b.id, offenders[0][0], offenders[0][1]),
+                   offenders[0][1] if offenders else b.span)
+    rep.floor("backend observer methods examined (%s)" % tag, n6, 12)
 
 
 def fmt_origin(o):
